@@ -286,6 +286,7 @@ P["C14"] = {
       + [K("c14.array.%d" % n, "traits.rs", TR + "c14_array_%d" % n, "array [B; %d] likewise (generic loops)" % n, ["io::traits::<impl BufMutSlice/BufSlice for [B; N]>"]) for n in (1, 2, 3)] + [
         K("c14.vec", "traits.rs", TR + "c14_vec", "Vec<u8>: parts_mut == uninitialised tail of the allocation; set_init(n) == set_len(len+n), no reallocation; Buf side == initialised prefix", ["io::traits::<impl BufMut for Vec<u8>>", "io::traits::<impl Buf for Vec<u8>>"], bounded="capacity <= 8"),
         K("c14.bufs", "traits.rs", TR + "c14_bufs", "&'static [u8] / &'static str / StaticBuf / Box<[u8]> / Cow<[u8]> / Cow<str>: parts == (own bytes, length), len/is_empty agree", ["io::traits::<impl Buf for ...>"], bounded="length <= 4"),
+        K("c14.counting", "traits.rs", "io::traits::verif_traits::c14_counting", "ReadNBuf (byte-counting wrapper of read_n/recv_n, single and 2-buffer vectored): pairs, capacities and request form are the inner buffer's; set_init(n) appends exactly n front to back and records n", ["io::<impl BufMut for ReadNBuf<B>>", "io::<impl BufMutSlice<N> for ReadNBuf<B>>"]),
     ],
 }
 P["C15"] = {
@@ -304,6 +305,7 @@ P["C15"] = {
         K("c15.remove.invalid", "read_buf.rs", RB + "c15_remove_invalid_panics", "start > end or end > len: rejected (panic)", ["io::read_buf::ReadBuf::remove"], bounded="slot size 8"),
         K("c15.len_edits", "read_buf.rs", RB + "c15_len_edits", "truncate / clear / set_len / spare_capacity_mut: new length as for Vec, common prefix unchanged, spare == unused tail of the slot, BufMut view agrees", ["io::read_buf::ReadBuf::truncate", "io::read_buf::ReadBuf::clear", "io::read_buf::ReadBuf::set_len", "io::read_buf::ReadBuf::spare_capacity_mut"], bounded="slot size 8"),
         K("c15.extend", "read_buf.rs", RB + "c15_extend", "extend_from_slice: appended in order when it fits, Err and unchanged when it would exceed the slot", ["io::read_buf::ReadBuf::extend_from_slice"], bounded="slot size 8"),
+        K("c10.readnbuf.pool", "uio.rs", UIO + "c10_readnbuf_pool", "repeated reads into one ReadBuf: the second read targets the spare part of the same slot and appends behind the first (arrival order), nothing outside the slot touched", ["io::<impl BufMut for ReadBuf>", "io_uring::io::ReadOp"], bounded="pool 4 x 8 bytes"),
         K("c08.readbuf.release_once", "read_buf.rs", RB + "c08_readbuf_release_once", "the slot given back on release is this ReadBuf's own, whatever its edited length", ["io::read_buf::ReadBuf::release"], bounded="pool 4 x 8 bytes"),
         K("c08.init_release.roundtrip", "uio.rs", UIO + "c08_init_release_roundtrip", "release recomputes the slot from the (unchanged) base pointer for any edited length", ["io_uring::io::ReadBufPool::release"], bounded="pool 4 x 8 bytes"),
     ],
